@@ -172,6 +172,26 @@ add(property='C02', id='C02-axial-parabola-backward', status='fixed', commit='45
                                             ap=('EPD', 2.0), fields=(0.0,), wls=(0.5,)),
                 'rays': [[0.0, 0.0, 0.0], [0.0, 1.0, 0.0]], 'wl': 0})
 
+add(property='C07', id='C07-parabola-cancellation', status='open', clause='lengths_scale_with_the_prescription',
+    what='same root cause as C05-/C02-parabola-cancellation: the conic root loses ~1e-15/|c (L^2+M^2+(1+k)N^2)| on a '
+         'near-paraboloid reached by an almost axial ray, and that noise is not covariant under the transformations of '
+         'this property, e.g. paraboloid mirror R=6 tilted by 1e-5 rad, axial ray: z on the mirror -3.6e-5 instead of 0 in '
+         'the lens scaled by 10; recorded, not repaired (the stable root changes a value pinned by '
+         'tests/test_operand.py::TestRayOperand::test_opd_diff_on_axis)',
+    region='a trace in which a ray reaches a standard conic surface with |1+k| < 0.05 with 0 < |L^2+M^2+(1+k)N^2| < 1e-4',
+    weakened_relation='the relation is judged ray by ray with the additional allowance 10 (1 + |c|max L) sum_k '
+                      '1e-15/|c_k a_k| for lengths and 10 |c|max times that sum for direction cosines',
+    reproducer={'kind': 'rescale', 'logs': 1.0, 'rays': [[0.0, 0.0, 0.0], [0.0, 0.5, 0.0]], 'wl': 0,
+                'spec': spec([surf(R=6.0, k=-1.0, t=-0.2, mat=MIRROR, stop=True, ry=1e-5, hd=2.0),
+                              surf(R='inf', t=9.088979819907806, mat=MIRROR, hd=2.2),
+                              surf(R='inf', t=-6.035192443554193, mat=MIRROR, hd=12.0)],
+                             t_obj=5.0, ap=('EPD', 4.0), fields=(0.0,), wls=(0.5,))})
+
+add(property='C12', id='C12-rayfan-view-mutates', status='fixed', commit='259db07', clause='rayfan_y',
+    what='fixed: property=C12 259db07 RayFan.view() set the stored ray errors of zero-intensity (clipped) rays to NaN in '
+         'place: the reported fan depended on whether it had been drawn',
+    reproducer=json.load(open(os.path.join(HERE, 'known_cases', 'C12-rayfan-view.json'))))
+
 add(property='C01', id='C01-solve-slope', status='fixed', commit='08843a4', clause='solve_places_marginal_ray',
     what='fixed: property=C01 08843a4 marginal_ray_height solve (and image_solve) used the marginal slope behind the '
          'moved surface: on a powered surface the requested height was missed (two mirrors, R=5: 2.0 instead of 0.0)',
